@@ -49,20 +49,20 @@ def p_explicit_id(rng, w, name):
 
 PROFILES = {
     # name: (weight, profile)
-    "reliable": dict(loss=0.15, dup=0.03, reorder=0.3, chan_params=[p_reliable], channels=4, close=False),
+    "reliable": dict(loss=0.15, dup=0.03, reorder=0.3, chan_params=[p_reliable], channels=4, close=False, react=0.03),
     "reliable-heavy-loss": dict(loss=0.4, dup=0.1, reorder=0.5, chan_params=[p_reliable], channels=3, close=False,
                                 sizes=[0, 1, 1200, 1201, 5000, 20000]),
     "reorder-frag": dict(loss=0.05, dup=0.05, reorder=0.7, chan_params=[p_reliable], channels=2, close=False,
                          sizes=[2500, 3000, 5000, 1201, 10], stash=0.08),
     "clean": dict(loss=0.0, dup=0.0, reorder=0.0, chan_params=[p_reliable], channels=3, close=False, fire=0.0),
     "mixed-pr": dict(loss=0.2, dup=0.03, reorder=0.3, chan_params=[p_reliable, p_rexmit, p_timed], channels=5, close=False,
-                     sizes=[0, 1, 100, 1200, 1201, 5000, 20000]),
+                     sizes=[0, 1, 100, 1200, 1201, 5000, 20000], react=0.02),
     "hostile": dict(loss=0.05, dup=0.02, reorder=0.2, chan_params=[p_reliable, p_rexmit], channels=4, close=True,
                     hostile=0.25, sizes=[0, 1, 100, 1200, 3000]),
     "hostile-benign": dict(loss=0.05, dup=0.02, reorder=0.2, chan_params=[p_reliable, p_rexmit], channels=4, close=False,
                            hostile=0.25, forging=False, sizes=[0, 1, 100, 1200, 3000]),
     "lifecycle": dict(loss=0.1, dup=0.02, reorder=0.2, chan_params=[p_reliable, p_rexmit, p_negotiated, p_explicit_id],
-                      channels=6, close=True, sizes=[0, 1, 10, 1200, 3000]),
+                      channels=6, close=True, sizes=[0, 1, 10, 1200, 3000], react=0.04),
 }
 
 
